@@ -166,8 +166,15 @@ impl Schema {
     /// Collect all the index information from this schema.
     pub(crate) fn get_indexes(&self) -> Vec<IndexHandle> {
         if let Some(indexes) = &self.table_indexes {
-            indexes
-                .iter()
+            #[allow(unused_mut)]
+            let mut pairs: Vec<(&ObjectId, &Vec<usize>)> = indexes.iter().collect();
+            // Verification builds: ascending object id instead of the (per-process random) iteration
+            // order of the hash map, so that index maintenance touches pages in the same order in
+            // every run of the same history.
+            #[cfg(feature = "verif")]
+            pairs.sort_by_key(|(id, _)| **id);
+            pairs
+                .into_iter()
                 .map(|(id, col_info)| IndexHandle::new(*id, col_info.clone()))
                 .collect()
         } else {
@@ -430,7 +437,13 @@ impl Schema {
             };
         }
 
-        deps.extend(self.table_indexes.as_ref().unwrap().keys());
+        #[allow(unused_mut)]
+        let mut index_ids: Vec<ObjectId> =
+            self.table_indexes.as_ref().unwrap().keys().copied().collect();
+        // Verification builds: deterministic order (see [Schema::get_indexes]).
+        #[cfg(feature = "verif")]
+        index_ids.sort();
+        deps.extend(index_ids);
         deps
     }
 
@@ -452,7 +465,12 @@ impl Schema {
 
     pub(crate) fn get_index_for_column_list(&self, columns: &[usize]) -> Option<IndexHandle> {
         if let Some(indexes) = self.table_indexes.as_ref() {
-            for (object_id, index_columns) in indexes.iter() {
+            #[allow(unused_mut)]
+            let mut pairs: Vec<(&ObjectId, &Vec<usize>)> = indexes.iter().collect();
+            // Verification builds: deterministic order (see [Schema::get_indexes]).
+            #[cfg(feature = "verif")]
+            pairs.sort_by_key(|(id, _)| **id);
+            for (object_id, index_columns) in pairs {
                 if index_columns == columns {
                     return Some(IndexHandle::new(*object_id, columns.to_vec()));
                 }
